@@ -62,6 +62,20 @@ FIXED = {
     "sibling-defers-stream-in-last": fixed('query Q { a ... @defer(label:"B") { b } ... @defer(label:"A") { slow l @stream(initialCount:1, label:"S") } }',
                                            {"A": "", "B": "", "S": ""}, force={"a": ("value", S), "slow": ("value", G), "b": ("value", G), "l": ("value", S)},
                                            lists={"l": (3, True, None)}),
+    # one execution group shared by two nested fragments that sit under different enclosing fragments; one of the enclosing
+    # fragments fails before the other completes
+    "shared-task-under-two-parents-one-fails": fixed(
+        'query Q { b ... @defer(label:"A") { nn ... @defer(label:"C") { a } } ... @defer(label:"B") { slow ... @defer(label:"D") { a } } }',
+        {"A": "", "B": "", "C": "A", "D": "B"},
+        force={"b": ("value", S), "nn": ("raise", G), "slow": ("value", G), "a": ("value", G)}),
+    "shared-task-under-two-parents-ok": fixed(
+        'query Q { b ... @defer(label:"A") { nn ... @defer(label:"C") { a } } ... @defer(label:"B") { slow ... @defer(label:"D") { a } } }',
+        {"A": "", "B": "", "C": "A", "D": "B"},
+        force={"b": ("value", S), "nn": ("value", G), "slow": ("value", G), "a": ("value", S)}),
+    # orphaned work that registers more orphaned work: a synchronously failing non-null field beside a started awaitable, twice nested
+    "nested-orphans-plain": fixed('query Q { o { x nx } nn }', {}, force={"o": ("value", G), "o/x": ("value", G), "o/nx": ("raise", S), "nn": ("raise", S)}),
+    "nested-orphans-deferred": fixed('query Q { a ... @defer(label:"D") { o { x nx } nn } }', {"D": ""},
+                                     force={"a": ("value", S), "o": ("value", G), "o/x": ("value", G), "o/nx": ("raise", S), "nn": ("raise", S)}),
     # the source raises while a LATER early-executed item is still pending and the head has settled
     "stream-fails-second-item-pending": fixed('query Q { ol @stream(initialCount:0, label:"S") { x } }', {"S": ""},
                                               force={"ol": ("value", S), "ol/0/x": ("value", S), "ol/1/x": ("value", G)}, lists={"ol": (2, True, 2)}),
